@@ -172,6 +172,7 @@ func Run(c *vk.Ctx) {
 			return
 		}
 		cfgRaw[o.Cfg] = l[0].Raw
+		cfgRawGlobal[o.Cfg] = l[0].Raw
 	}
 	if c.Shard == 0 {
 		urlRoundTrip(c)
@@ -302,6 +303,32 @@ func setup(h []Op) {
 	}
 }
 
+// cfgRawGlobal: canonical stored form of the configs of the alphabet (set by Run).
+var cfgRawGlobal = map[string]string{}
+
+// snapshotDir / restoreDir save and restore the whole settings directory
+// (settings file plus whatever an interrupted save left behind).
+func snapshotDir() map[string][]byte {
+	out := map[string][]byte{}
+	dir := filepath.Dir(fname())
+	ents, _ := os.ReadDir(dir)
+	for _, e := range ents {
+		if b, err := os.ReadFile(filepath.Join(dir, e.Name())); err == nil {
+			out[e.Name()] = b
+		}
+	}
+	return out
+}
+
+func restoreDir(m map[string][]byte) {
+	dir := filepath.Dir(fname())
+	os.RemoveAll(dir)
+	os.MkdirAll(dir, 0700)
+	for n, b := range m {
+		os.WriteFile(filepath.Join(dir, n), b, 0644)
+	}
+}
+
 func fileBytes() string {
 	b, err := os.ReadFile(fname())
 	if err != nil {
@@ -350,6 +377,10 @@ func faults(c *vk.Ctx, depth int) {
 					c.Violation("harness/divergence", w, x.Diverged)
 					return true
 				}
+				if x.Hung != "" {
+					c.Violation("fault/hang", w, x.Hung)
+					return false
+				}
 				if len(x.Panics) > 0 {
 					c.Violation("fault/panic", w, strings.Join(x.Panics, "\n"))
 					return true
@@ -370,6 +401,31 @@ func faults(c *vk.Ctx, depth int) {
 				}
 				if x.Crashed == "" && opErr == nil && got != newb {
 					c.Violationf("durability/io-error/reported-success", w, "the operation reported success after %s but the file does not hold the new contents", fault)
+				}
+				// After a kill or a failed write, pprof is restarted and used again: every
+				// follow-up operation must act on the complete old or new settings, whatever
+				// the interrupted save left lying around (temporary files, partial files).
+				if got == old || got == newb {
+					leftovers := snapshotDir()
+					for _, o2 := range alphabet {
+						restoreDir(leftovers)
+						var base []entry
+						base, _, _ = readState()
+						want, okm := modelApply(base, o2, func(s string) string { return cfgRawGlobal[s] })
+						err2 := apply(o2)
+						after, raw2, rerr := readState()
+						w2 := w
+						w2.Op = o.String() + " [" + fault + "] then " + o2.String()
+						c.Eval()
+						if rerr != nil {
+							c.Violationf("durability/"+kind+"/follow-up-corrupts-file", w2, "after the interrupted operation, %s leaves an unreadable settings file: %v\n %.200q", o2, rerr, raw2)
+							break
+						}
+						if okm && (err2 != nil || fmt.Sprint(after) != fmt.Sprint(want)) {
+							c.Violationf("durability/"+kind+"/follow-up-wrong-result", w2, "err=%v\n want %v\n got  %v", err2, want, after)
+							break
+						}
+					}
 				}
 				return !c.Expired()
 			}
@@ -449,6 +505,9 @@ func schedules(c *vk.Ctx, preempt int) {
 				case x.Diverged != "":
 					c.Violation("harness/divergence", w, x.Diverged)
 					return true
+				case x.Hung != "":
+					c.Violation("concurrent/hang", w, x.Hung)
+					return false
 				case x.Deadlock != "":
 					c.Violation("concurrent/deadlock", w, x.Deadlock)
 					return true
